@@ -1008,6 +1008,8 @@ def _guard_fold_case() -> Case:
         members.append(
             dict(
                 label=f"guard_fold:{tag}",
+                feature="guard_fold",
+                name=tag,
                 origin="name_fold",
                 files={
                     f"{ns}/{a}.1.0.dsdl": "uint8 a\n@sealed\n",
